@@ -1659,6 +1659,8 @@ def eh_mut(h, name):
 class EnvironStream(OpsStream):
     name = "ops-environ"
     probes = ["X-A", "x-a", "x_a", "Content-Type", "content-length", "B", "zz"]
+    # F08f (repaired by 1433786): EnvironHeaders.clear() must raise like every other mutator
+    corpus = [{"init": [], "ops": [["m", "clear"]], "all": 1}, {"init": [["HTTP_X_A", "1"]], "ops": [["m", "clear"], ["m", "set"]], "all": 1}]
     inits = [
         [],
         [["HTTP_X_A", "1"], ["CONTENT_TYPE", "text/x"], ["HTTP_B", "2"], ["wsgi.version", "1"]],
@@ -1771,8 +1773,6 @@ class EnvironStream(OpsStream):
             elif op[0] == "envdel":
                 env.pop(op[1], None)
             else:
-                if op[1] == "clear":
-                    taint.append("F08f")
                 raise SpecErr("TypeError")
 
         return run_history(View(), case["ops"], apply, lambda r: "~", lambda x: self.dump_real(x, self.probes), case.get("all", 0))
@@ -1841,12 +1841,11 @@ class ImmutablePlainStream(Stream):
         for seg in real_out.split(";"):
             n, r, same = seg.split(":")
             if r != "!TypeError" or same != "same":
-                pre = "F08e: " if (case["cls"] == "ImmutableList" and n == "clear") else ""
-                return pre + f"{case['cls']}.{n} -> {r}, object {same} (every mutator must raise TypeError and leave it unchanged)"
+                return f"{case['cls']}.{n} -> {r}, object {same} (every mutator must raise TypeError and leave it unchanged)"
         return None
 
-    def finding_key(self, case, what):
-        return "F08e" if what.startswith("F08e: ") else None
+    # F08e (repaired by 1433786) stays covered: `clear` is in LIST_M and every name is enumerated
+    corpus = [{"cls": "ImmutableList", "ops": ["clear"]}, {"cls": "ImmutableList", "ops": ["clear", "append"]}]
 
     def bucket(self, case, real_out):
         return case["cls"]
@@ -2033,7 +2032,7 @@ CHECK = Check(
         "type conversion callables (get/getlist type=) are a parameter of the model; the streams use int on an optional sign + ASCII digits",
         "extended slices (step != 1), non-text keys and the deprecated OrderedMultiDict classes are outside the model",
         "copy / deepcopy / pickle / eq / hash are runtime behaviour: exercised by stream probes with the property oracle only (no Lean counterpart beyond copy = identity on the functional state)",
-        "known findings F08b, F08c (HeaderSet item assignment / constructor create case-duplicates), F08d (MultiDict key with zero values), F08e (ImmutableList.clear is not blocked), F08f (EnvironHeaders.clear does not raise): negation witnesses proved, theorems carry the excluding hypotheses",
+        "known findings F08b, F08c (HeaderSet item assignment / constructor create case-duplicates), F08d (MultiDict key with zero values): negation witnesses proved, theorems carry the excluding hypotheses; F08g/F08h/F08i (copy.copy(HeaderSet) aliasing, CombinedMultiDict deepcopy / ==) are runtime behaviour checked by stream probes only",
     ],
     trusted_extra=["CPython dict/list/str semantics for the modelled primitives (validated by the streams, not verified)"],
     quick_budget=60000,
@@ -2042,7 +2041,7 @@ CHECK = Check(
 
 MANIFEST = {
     "level_text": "Machine-checked Lean 4 refinement theorems: the transcribed MultiDict / Headers / HeaderSet methods refine the documented abstract models (insertion-ordered multimap, case-insensitive pair list, case-insensitive ordered set) for every operation history; HeaderSet invariant preservation; Headers.set algebra; Immutable* blocker tables regenerated from the live classes and closed by decide. The transcriptions are tied to the code by exhaustive short-history correspondence streams and the property oracle (independent Python reference models) runs on the real code.",
-    "level_note": "Trusted: Lean kernel; extract.py; harness; CPython dict/list/str primitives (modelled, validated). copy/deepcopy/pickle/eq/hash checked by oracle only. Known findings F08b-F08f.",
+    "level_note": "Trusted: Lean kernel; extract.py; harness; CPython dict/list/str primitives (modelled, validated). copy/deepcopy/pickle/eq/hash checked by oracle only. Known findings F08b, F08c, F08d, F08g, F08h, F08i.",
     "technique": "Lean 4 proof (refinement by induction over operation histories, decide over regenerated tables) + model/code correspondence",
     "design_ref": "DESIGN.md section 4, C08",
 }
